@@ -124,7 +124,8 @@ Proof. exact spent_step. Qed.
    `ctx_inv` (every stored context sits at or below the current version of its slot) holds initially, is preserved by
    every operation (no version wrap), and implies that a node created without context in a reused slot has none. *)
 Theorem C14_ctx_inv_preserved :
-  ctx_inv tree_new /  forall t o t' out, WF t -> no_wrap (t_nodes t) -> ctx_inv t -> step t o = Ok (t', out) -> ctx_inv t'.
+  ctx_inv tree_new /\
+  forall t o t' out, WF t -> no_wrap (t_nodes t) -> ctx_inv t -> step t o = Ok (t', out) -> ctx_inv t'.
 Proof. split; [exact ctx_inv_new | exact ctx_inv_step]. Qed.
 
 Theorem C14_fresh_context_none : forall t o t' k, WF t -> ctx_inv t ->
